@@ -15,7 +15,8 @@
 (***************************************************************************)
 EXTENDS NoiseObjects, TLC
 
-CONSTANT FullRollback
+CONSTANTS FullRollback,
+          KeepHist        \* TRUE: hist is the whole history; FALSE (trace validation): only the last step
 
 VARIABLES ep, hist, aeadLog
 vars == <<ep, hist, aeadLog>>
@@ -41,7 +42,7 @@ ObsOf(e) == CASE e.mode = "hs" -> HsObs(e.st)
               [] OTHER -> [gone |-> TRUE]
 
 Step(op, id, args, exp) == [op |-> op, ep |-> id, args |-> args, exp |-> exp]
-Log(step) == hist' = Append(hist, step)
+Log(step) == hist' = IF KeepHist THEN Append(hist, step) ELSE <<step>>
 
 (* ---- AEAD operations performed by a call (C06/C09) -------------------- *)
 (* encryptions performed when going from symmetric state a to b are read  *)
